@@ -19,6 +19,7 @@ func pow10(n int) int64 {
 
 func runC12(c *Ctx) {
 	c.R.Rule = "temporal cells per (type, fsp, value class: zero/min/max/boundary/negative/random, time zone for TIMESTAMP); distinct = distinct tuples"
+	typedHistories(c, "C12", colCasesC12, c.N(25, 400))
 	r := c.Rng
 	var cases []cellCase
 	add := func(ty, val vh.Val, inst int64, class string) {
